@@ -202,6 +202,15 @@ fn value_part(run: &Run, thorough: bool) -> Acc {
         qs.push(format!("$[?length({})==length(@.x)]", lit));
         qs.push(format!("$[?value(@.x)=={}]", lit));
     }
+    for n in ["0", "1", "2", "3"] {
+        for q in ["count($[?@.x])", "count($[?@.x==1])", "count($..[?@==1])", "count($[?@.x].x)", "length(value($[?@.x==true]))", "count($[0:2][?@==1])", "count($[*][?@==1])"] {
+            qs.push(format!("$[?{}=={}]", q, n));
+            qs.push(format!("$[?{}<{}]", q, n));
+        }
+    }
+    for q in ["$[?$[?@.x]]", "$[?!$[?@.x==7777]]", "$[?$..[?@==1]]", "$[?value($[?@.x==null]).x==null]", "$[?$[?@.x==true].x]", "$[?@.x==value($[?@.x=='a']).x]"] {
+        qs.push(q.to_string());
+    }
     for q in [
         "$[?length(@.x)==length(@.x)]",
         "$[?length(@.x)==count(@.x.*)]",
